@@ -357,6 +357,18 @@ def run(ctx):
         lo, hi = bounds(rng, min(n, 12))
         run_digest(ctx, st, pt, prot, rs, rng.randint(0, 4), rng.random() < 0.4, lo, hi, rng.random() < 0.75,
                    rng.choice(RETURN_TYPES), rng.random() < 0.7, 'digest' if rng.random() < 0.8 else 'config')
+    # ---- E. three to five rules whose site sets overlap (the same sites found by several rules, a rule given twice),
+    #         short site-rich proteins: the union of sites, whatever the order of the rule list
+    families = [['trypsin', 'trypsin/P', 'lys-c', 'arg-c', '([KR])', 'K'], ['asp-n', 'glu-c', '(?=D)', '[DE]']]
+    for _ in range(ctx.n(4000, 120000)):
+        n = rng.randint(1, 9)
+        prot = ''.join(rng.choice('KKRDEAP') for _ in range(n))
+        fam = rng.choice(families)
+        rs = [rng.choice(fam) for _ in range(rng.randint(2, 4))]
+        rs.append(rng.choice([r for r in ALL_RULES if r not in rd.NON_SPECIFIC]))
+        rng.shuffle(rs)
+        run_digest(ctx, st, pt, prot, rs, rng.randint(0, 2), rng.random() < 0.3, None, None, True,
+                   rng.choice(RETURN_TYPES), True, 'digest')
     for _ in range(ctx.n(3000, 80000)):
         n = rng.randint(0, 40)
         prot = ''.join(rng.choice('KRPDEAFWYLGS') for _ in range(n))
